@@ -19,6 +19,7 @@ def itemLen (cls : String) (i : Nat) : Nat :=
 
 /-- item `i`: its index, a separator, filler up to its length (+12 for the bincode codec: a `u32` and a length) -/
 def item (codec cls : String) (i : Nat) : Bytes :=
+  if cls = "E" then (if i % 3 = 1 then [97] else []) else
   let body := digits i ++ [124]
   body ++ List.replicate (itemLen cls i - body.length + (if codec = "bincode" then 12 else 0)) 120
 
@@ -54,7 +55,9 @@ def run (t : List String) : String :=
     let final := if fin = "n" then .ok r.1 else r.1.finish noCompression lim
     let pf := match final with | .ok pf => pf | _ => r.1.dropBatch.flush
     let outs := subscriberOutputs bytesCodec noCompression pf.wire
-    let idx := outs.filterMap fun r => match r with | .ok b => some (indexOf b) | _ => none
+    let idx := if cls = "E" then ((outs.filterMap fun r => match r with | .ok b => some b | _ => none).zipIdx.map fun x =>
+                    if x.1 = item codec cls x.2 then toString x.2 else "?")
+               else outs.filterMap fun r => match r with | .ok b => some (indexOf b) | _ => none
     let errs := (outs.filter fun r => !r.isOk).length
     (if idx.isEmpty then "-" else ",".intercalate idx) ++ s!" errs={errs}" ++
       (if refused.isEmpty then "" else " refused=" ++ ",".intercalate refused) ++
